@@ -273,6 +273,32 @@ func (s *State) rangeOfD(e *Expr, depth int) ISet {
 		default:
 			v = isTop()
 		}
+		// bit operations with a constant over a small finite set: exact image
+		switch op := e.binOp(); op {
+		case "&", "|", "^", ">>", "<<":
+			apply := func(a, b int64) int64 {
+				switch op {
+				case "&":
+					return a & b
+				case "|":
+					return a | b
+				case "^":
+					return a ^ b
+				case ">>":
+					return a >> uint(b)
+				}
+				return a << uint(b)
+			}
+			if cy, ok := ry.IsConst(); ok && cy >= 0 && cy < 62 {
+				if img, ok := rx.mapSmall(func(a int64) int64 { return apply(a, cy) }); ok {
+					v = v.Intersect(img)
+				}
+			} else if cx, ok := rx.IsConst(); ok && cx >= 0 && op != ">>" && op != "<<" {
+				if img, ok := ry.mapSmall(func(b int64) int64 { return apply(cx, b) }); ok {
+					v = v.Intersect(img)
+				}
+			}
+		}
 		// wrap check: if the mathematical result does not fit the type the
 		// machine value wraps; fall back to the type's range.
 		if !cmpBinOp(e.binOp()) {
@@ -1141,6 +1167,24 @@ func (s *State) load(addr *Expr, typ types.Type) *Expr {
 				w := map[string]int64{"be16": 2, "be32": 4, "be64": 8}[beas[0].S]
 				if c, isC := beas[0].Args[1].IsConst(); isC && c == 0 && w == at.Len() {
 					return mk("bytes", typ, beas[0].S, 0, s.mem[beas[0].Key])
+				}
+			}
+			// written octet by octet: byte(x>>24), byte(x>>16), byte(x>>8), byte(x)
+			if n := at.Len(); len(beas) == 0 && (n == 2 || n == 4 || n == 8) {
+				arr := mk("arr", types.NewPointer(typ), "", n, addr)
+				var vals []*Expr
+				for i := int64(0); i < n; i++ {
+					ia := mkIndexAddr(arr, mkConst(i, intT), types.NewPointer(at.Elem()))
+					v, has := s.mem[ia.Key]
+					if !has {
+						break
+					}
+					vals = append(vals, v)
+				}
+				if int64(len(vals)) == n {
+					if x, ok := beOctets(vals); ok {
+						return mk("bytes", typ, fmt.Sprintf("be%d", 8*n), 0, x)
+					}
 				}
 			}
 		}
